@@ -12,6 +12,7 @@ type Feat struct {
 	MaxOps         int
 	MaxParams      int
 	DeepBias       bool // new scopes preferably below the deepest existing one
+	Huge           bool // a very long, registration-heavy history
 	Export         bool
 	Objects        bool
 	EmbedObjs      bool // nested parameter objects may be embedded (anonymous) fields
@@ -416,7 +417,7 @@ func (g *genCtx) genDecorator(s int) *Func {
 	seen := map[Key]bool{}
 	for i := 0; i < n; i++ {
 		var k Key
-		if len(av) > 0 && (g.r.P(0.97) || !g.ft.DecoIntroduce) {
+		if len(av) > 0 && (g.r.P(0.85) || !g.ft.DecoIntroduce) {
 			k = av[g.r.Intn(len(av))]
 		} else if g.ft.DecoIntroduce {
 			k, _ = g.randomKey(g.ft.NT, groups)
@@ -838,6 +839,7 @@ func BaseFeat(r *Rng, thorough bool) Feat {
 	ft.NamedSlice = r.P(0.25)
 	ft.PVariadic = []float64{0.1, 0.1, 0.4}[r.Intn(3)]
 	ft.PWide = []float64{0, 0, 0.03}[r.Intn(3)]
+	ft.Huge = r.P(0.004)
 	ft.PThenProvide = []float64{0, 0, 0.06}[r.Intn(3)]
 	ft.Info = r.P(0.3)
 	ft.PErrFirst = []float64{0, 0.15, 0.3}[r.Intn(3)]
